@@ -79,6 +79,18 @@ def pneg(x):
         return x[1]
     return mk("pneg", x)
 
+def pow2_recip(y):
+    """the f64 constant 2^-k when y is the f64 constant 2^k and both are normal numbers, else None"""
+    if tag(y) != "const" or y[1] != "f64":
+        return None
+    bits = y[2]
+    if bits >> 63 or bits & ((1 << 52) - 1):
+        return None
+    e = bits >> 52
+    if not (1 <= e <= 2046) or not (1 <= 2046 - e <= 2046):
+        return None
+    return mk("const", "f64", (2046 - e) << 52)
+
 class Normalizer:
     def __init__(self, mode="E", eft=None, strip_fma_provider=True, opcomm=False):
         assert mode in ("E", "Z")
@@ -166,7 +178,13 @@ class Normalizer:
             return neg(r) if sx != sy else r
         if op == "div":
             sx, x = split_sign(a[2]); sy, y = split_sign(a[3])
-            r = mk("f", "div", x, y)
+            rc = pow2_recip(y)
+            if rc is not None:
+                # x / 2^k and x * 2^-k are the correctly rounded value of the same real number
+                p, q = self._sorted2(x, rc)
+                r = mk("f", "mul", p, q)
+            else:
+                r = mk("f", "div", x, y)
             return neg(r) if sx != sy else r
         if op == "fma":
             sx, x = split_sign(a[2]); sy, y = split_sign(a[3]); c = a[4]
